@@ -1,15 +1,24 @@
 """C14 — a superrun is exactly the ordered concatenation of its subruns.
 
-Model: lean/StraxModel/Model/Superrun.lean (+ Chunk.lean / Rechunk.lean); theorems: Props/C14.lean.
+Model: lean/StraxModel/Model/Superrun.lean (+ Chunk.lean / Rechunk.lean, Generated/RunDoc.lean); theorems: Props/C14.lean
+(26: 16 full, 8 `_partial`, 2 witnesses).
+Step 0 (`regen`): does DataDirectory.write_run_metadata pass sort_keys=True?  -> Generated/RunDoc.lean.
 Tie: REAL contexts (DataDirectory with run documents written by the harness, a linear chain of 2..4 harness plugins
 whose source places every subrun on its own time range through an untracked layout option) are driven through
-`define_run` → `get_iter` (twice) → redefinition → `get_array`, and every yielded chunk, the stored chunk metadata,
-the storage flags and the key relation are compared with the compiled Lean driver (`c14.super`).  Unit-level
-correspondences cover `define_run` ordering, `DataKey._run_id`, `Plugin.iter` of a single-dependency plugin with
-`allow_superrun`, `Chunk.concatenate(allow_superrun=True)` across run ids, `continuity_check` on superrun chunks and
-`_split_runs_in_chunk` (exhaustive small scope).
-Oracle: rows = concatenation of the single-run results in order of run start; every chunk's subruns = the subruns
-overlapping it, clipped to it; redefinition changes the key and hides the stored data.
+`define_run` (list form, or dict form with per-subrun [start, end] windows) -> optional `make` of a lower level ->
+`get_iter` (twice) -> redefinition -> `get_array` -> restored definition, and every yielded chunk, the stored chunk
+metadata of every level, the storage flags and the key relation are compared with the compiled Lean driver
+(`c14.super`).  Families: adjacent (stratified: depth x write_superruns x processor x rechunking saver), gapped,
+windowed, zerodur, idorder, malformed, epoch (all data times shifted by T0 ~ 1.7e18 ns), ties (agreement only), corpus.
+Unit-level correspondences: `define_run` (order handed to the frontend and order read back), `DataKey._run_id`
+(incl. selections), `Plugin.iter` of a single-dependency plugin with `allow_superrun`,
+`Chunk.concatenate(allow_superrun=True)` across run ids, `continuity_check` on superrun chunks (both Lean models of
+it must agree), `_split_runs_in_chunk` (exhaustive small scope); each also at epoch-scale times.
+Oracle: rows = concatenation of the single-run results in order of run start (a windowed subrun: rows inside the
+window present, rows certainly outside absent); every yielded / stored chunk's subruns = the subruns overlapping it,
+clipped to it; a redefinition with other subruns or another selection changes the key and hides the stored data.
+Open findings the oracle may label (exact shape conditions in `_gap_label_error`, `_zero_label`, `oracle_super`):
+C14a (time gap between subruns), C14c (zero-duration chunk).
 """
 from __future__ import annotations
 
@@ -35,11 +44,14 @@ TRUSTED = [
     "harness plugins: a source that emits the chunk layout given by an untracked option, row-wise copy plugins above it",
     "run documents written by the harness into DataDirectory._run_meta_path (datetimes through bson.json_util)",
     "modelled not verified: JSON round trip of chunk metadata (sort_keys), sha1/base32 of DataKey (abstract injective H)",
+    "shared chunk model Model/Chunk.lean (mkChunk, split, concatenate, Rechunker) validated by C07's components and by c14.iter / c14.concat / c14.continuity",
 ]
 ASSUMPTIONS = [
     "plugin chain is linear, every plugin has one dependency and copies its input rows (ids stand for all bytes)",
-    "deterministic_hash((subruns, combining)) is collision-free on the specs that occur (H injective)",
-    "savers: save_when = ALWAYS for every level; time_range / chunk_number / multi-target loading outside the model",
+    "deterministic_hash((sub_run_spec items sorted by run id, each with its selection; combining)) is collision-free on the specs that occur (H injective)",
+    "sub_run_spec values are 'all' or one [start, end] window; run starts of the listed runs are pairwise distinct (ties: agreement only)",
+    "subrun data is made in one go from the source (a pre-made level sits directly below superrun-capable levels only)",
+    "savers: save_when = ALWAYS for every level; whole-superrun time_range / chunk_number / multi-target loading outside the model",
 ]
 
 DGAP = "C14a-gap-between-subruns"
